@@ -246,16 +246,27 @@ func chains(ch [][]int) string {
 	return strings.Join(parts, "|")
 }
 
-func state(s *sl) (string, il.VerifSkipDump[int]) {
-	var d il.VerifSkipDump[int]
+// state renders the observation; the dump has Level == -1 when the white-box hooks are the
+// black-box stubs (or the wrapped list is hidden): then only the black-box part is printed.
+func state(s *sl) (string, il.VerifSkipDump[int], []int) {
+	d := il.VerifSkipDump[int]{Level: -1}
 	var vals []int
 	n := 0
 	// a broken structure may make even the read-only walks panic: that is an observation, not a crash
-	if p := vlib.Catch(func() { vals = s.AsSlice(); n = s.Len(); d = s.in.VerifDump(100000) }); p != "" {
-		return "statepanic=" + p, d
+	if p := vlib.Catch(func() {
+		vals = s.AsSlice()
+		n = s.Len()
+		if s.in != nil {
+			d = s.in.VerifDump(100000)
+		}
+	}); p != "" {
+		return "statepanic=" + p, d, vals
+	}
+	if d.Level < 0 {
+		return fmt.Sprintf("len=%d vals=%s wb=na", n, vlib.Ints(vals)), d, vals
 	}
 	return fmt.Sprintf("len=%d vals=%s wvh=%d hs=%s level=%d size=%d hdr=%d ch=%s", n, vlib.Ints(vals),
-		vlib.Hash(d.Vals), vlib.Ints(d.Heights), d.Level, d.Size, d.HeaderH, chains(d.Chains)), d
+		vlib.Hash(d.Vals), vlib.Ints(d.Heights), d.Level, d.Size, d.HeaderH, chains(d.Chains)), d, vals
 }
 
 func okv(v int, err error) string {
@@ -309,7 +320,7 @@ func run(ops []string, out *vlib.Out, st *stats) {
 				out.Line("%s => %s", line, perr)
 				continue
 			}
-			sstr, _ := state(s)
+			sstr, _, _ := state(s)
 			out.Line("%s => ok %s", line, sstr)
 			continue
 		}
@@ -317,20 +328,20 @@ func run(ops []string, out *vlib.Out, st *stats) {
 			out.Line("%s => no-container", line)
 			continue
 		}
-		before, dBefore := state(s)
+		before, dBefore, valsBefore := state(s)
 		var res string
 		perr := vlib.Catch(func() {
 			switch w[0] {
 			case "ins":
 				v, _ := strconv.Atoi(w[1])
-				if present(dBefore.Vals, v) {
+				if present(valsBefore, v) {
 					st.DupIns++
 				}
 				s.Insert(v)
 				res = "ok"
 			case "del":
 				v, _ := strconv.Atoi(w[1])
-				if !present(dBefore.Vals, v) {
+				if !present(valsBefore, v) {
 					st.AbsentDel++
 				}
 				res = "ok:" + strconv.FormatBool(s.Delete(v))
@@ -339,9 +350,17 @@ func run(ops []string, out *vlib.Out, st *stats) {
 				res = "ok:" + strconv.FormatBool(s.Search(v))
 			case "get":
 				i, _ := strconv.Atoi(w[1])
-				res = okv(s.in.Get(i))
+				if s.in == nil {
+					res = "na" // not reachable through the public wrapper
+				} else {
+					res = okv(s.in.Get(i))
+				}
 			case "peek":
-				res = okv(s.in.Peek())
+				if s.in == nil {
+					res = "na"
+				} else {
+					res = okv(s.in.Peek())
+				}
 			case "asslice":
 				res = "ok:" + vlib.Ints(s.AsSlice())
 			case "len":
@@ -353,14 +372,14 @@ func run(ops []string, out *vlib.Out, st *stats) {
 		if perr != "" {
 			res = perr
 		}
-		after, d := state(s)
-		if len(d.Vals) > st.MaxLen {
-			st.MaxLen = len(d.Vals)
+		after, d, valsAfter := state(s)
+		if len(valsAfter) > st.MaxLen {
+			st.MaxLen = len(valsAfter)
 		}
 		if d.Level > st.MaxLevel {
 			st.MaxLevel = d.Level
 		}
-		if w[0] == "del" && d.Level < dBefore.Level {
+		if w[0] == "del" && d.Level >= 0 && d.Level < dBefore.Level {
 			st.LevelDrop++
 		}
 		if w[0] == "ins" && len(d.Heights) == len(dBefore.Heights)+1 && len(d.Vals) == len(d.Heights) && len(dBefore.Vals) == len(dBefore.Heights) {
